@@ -6,10 +6,12 @@
               RCP  rlp.DecodeBytes into tx.Receipt              RCPB Receipt.UnmarshalBinary
               BLK  rlp.DecodeBytes into block.Block             RBLK block.DecodeRawBlock + RawBlock.Decode
               ITEM generic strict RLP (decode then encode)
-   output:  "rej"   or   "ok DUMP REENC SIZE SIGN QUIRK"
+   output:  "rej"   or   "ok DUMP REENC SIZE SIGN QUIRK IG BR"
               DUMP  the Go-visible field tuple (pointer positions normalised), one token
               REENC Go's re-encoding in the same form as the input (hex), SIZE what Size() reports (hex, "-" if none),
-              SIGN  preimage of SigningHash() (hex, "-" if none), QUIRK 1 iff an rlp:"nil" position held 0xc0 *)
+              SIGN  preimage of SigningHash() (hex, "-" if none), QUIRK 1 iff an rlp:"nil" position held 0xc0,
+              IG    IntrinsicGas() (hex, "err" for the overflow error, "-" if none),
+              BR    a coarse tag of the model branches the input went through (shape of the decoded object) *)
 open Model
 open Wire
 
@@ -53,7 +55,21 @@ let show_receipt r =
 let show_block b = "B{" ^ show_header b.b_header ^ "}{" ^ join "|" (List.map show_tx b.b_txs) ^ "}"
 let rec show_item = function Str s -> "s" ^ hb s | Lst l -> "(" ^ join "," (List.map show_item l) ^ ")"
 
-let ok dump re size sign quirk = join " " ["ok"; dump; hex_of_bytes re; size; sign; tok_of_bool quirk]
+let ok dump re size sign quirk ig br = join " " ["ok"; dump; hex_of_bytes re; size; sign; tok_of_bool quirk; ig; br]
+let ig_of t = match intrinsic_gas t.t_clauses with Some g -> hn g | None -> "err"
+let cap n l = string_of_int (min n (List.length l))
+let br_tx t =
+  "t" ^ (if t.t_dyn then "1" else "0") ^ "c" ^ cap 3 t.t_clauses ^ "q" ^ tok_of_bool (tx_has_nil_list t)
+  ^ "u" ^ cap 2 t.t_reserved.r_unused ^ "d" ^ (match t.t_depends with Ptr _ -> "1" | _ -> "0")
+  ^ "f" ^ (match t.t_reserved.r_features with N0 -> "0" | _ -> "1")
+  ^ "s" ^ (match List.length t.t_sig with 0 -> "0" | 65 -> "a" | 130 -> "b" | _ -> "x")
+  ^ "n" ^ (if List.exists (fun c -> match c.c_to with Ptr _ -> false | _ -> true) t.t_clauses then "1" else "0")
+let br_hdr h =
+  "h" ^ (match h.h_ext.x_basefee with Some N0 -> "z" | Some _ -> "3" | None -> if h.h_ext.x_com then "2" else if h.h_ext.x_alpha = [] then "0" else "1")
+  ^ "f" ^ (match h.h_trf.trf_features with N0 -> "0" | _ -> "1") ^ "s" ^ (match List.length h.h_sig with 0 -> "0" | 65 -> "a" | 146 -> "c" | _ -> "x")
+let br_rcp r = "r" ^ (if r.rc_dyn then "1" else "0") ^ "o" ^ cap 2 r.rc_outputs ^ "v" ^ tok_of_bool r.rc_reverted
+  ^ "e" ^ (if List.exists (fun o -> o.o_events <> []) r.rc_outputs then "1" else "0")
+  ^ "t" ^ (if List.exists (fun o -> o.o_transfers <> []) r.rc_outputs then "1" else "0")
 
 let handle line =
   match split_ws line with
@@ -61,31 +77,33 @@ let handle line =
     let b = bytes_of_hex hex in
     (match kind with
      | "TX" -> (match go_decode_tx b with
-         | Some t -> ok (show_tx t) (go_reencode_tx t) (hn (lenN (go_marshal_tx t))) (hex_of_bytes (go_signing_tx t)) (tx_has_nil_list t)
+         | Some t -> ok (show_tx t) (go_reencode_tx t) (hn (go_tx_size_cached b)) (hex_of_bytes (go_signing_tx t)) (tx_has_nil_list t) (ig_of t) (br_tx t)
          | None -> "rej")
      | "TXB" -> (match go_unmarshal_tx b with
-         | Some t -> ok (show_tx t) (go_marshal_tx t) (hn (lenN (go_marshal_tx t))) (hex_of_bytes (go_signing_tx t)) (tx_has_nil_list t)
+         | Some t -> ok (show_tx t) (go_marshal_tx t) (hn (lenN b)) (hex_of_bytes (go_signing_tx t)) (tx_has_nil_list t) (ig_of t) (br_tx t)
          | None -> "rej")
      | "HDR" -> (match go_decode_header b with
-         | Some h -> ok (show_header h) (go_reencode_header h) "-" (hex_of_bytes (header_signing_bytes_any h)) false
+         | Some h -> ok (show_header h) (go_reencode_header h) "-" (hex_of_bytes (header_signing_bytes_any h)) false "-" (br_hdr h)
          | None -> "rej")
      | "HDRU" -> let c = c_header_gen (c_trf_gen false) in
        (match dec_exact c b with
-         | Some h -> ok (show_header h) (c.enc h) "-" (hex_of_bytes (header_signing_bytes_any h)) false
+         | Some h -> ok (show_header h) (c.enc h) "-" (hex_of_bytes (header_signing_bytes_any h)) false "-" (br_hdr h)
          | None -> "rej")
      | "RCP" -> (match go_decode_receipt b with
-         | Some r -> ok (show_receipt r) (go_reencode_receipt r) "-" "-" false
+         | Some r -> ok (show_receipt r) (go_reencode_receipt r) "-" "-" false "-" (br_rcp r)
          | None -> "rej")
      | "RCPB" -> (match go_unmarshal_receipt b with
-         | Some r -> ok (show_receipt r) (go_marshal_receipt r) "-" "-" false
+         | Some r -> ok (show_receipt r) (go_marshal_receipt r) "-" "-" false "-" (br_rcp r)
          | None -> "rej")
      | "BLK" | "RBLK" ->
        (match (if kind = "BLK" then go_decode_block b else go_decode_block_raw b) with
          | Some blk -> let re = go_reencode_block blk in
-           ok (show_block blk) re (hn (lenN re)) "-" (block_has_nil_list blk)
+           ok (show_block blk) re (hn (go_block_size_cached b)) "-" (block_has_nil_list blk)
+             (join "," (List.map ig_of blk.b_txs) |> fun x -> if x = "" then "-" else x)
+             ("b" ^ br_hdr blk.b_header ^ "x" ^ cap 3 blk.b_txs ^ String.concat "" (List.map br_tx (Wire.take 2 blk.b_txs)))
          | None -> "rej")
      | "ITEM" -> (match decode b with
-         | Some (i, []) -> ok (show_item i) (encode i) "-" "-" false
+         | Some (i, []) -> ok (show_item i) (encode i) "-" "-" false "-" "i"
          | _ -> "rej")
      | _ -> failwith "bad kind")
   | _ -> failwith "bad line"
